@@ -142,18 +142,46 @@ def goal_tail(module, beh):
         cancels = [{"a": "DeliverTx", "msgs": [{"t": "SCancel", "sender": s, "receiver": r}]} for r, s in STREAM_PAIRS]
         tail += [{"a": "BeginBlock", "dt": 3000}] + claims + [{"a": "EndBlock"}, {"a": "Commit"}]
         tail += [{"a": "BeginBlock", "dt": 17500}] + claims + [{"a": "EndBlock"}, {"a": "Commit"}]
-        tail += [{"a": "BeginBlock", "dt": 2000}] + cancels + [{"a": "EndBlock"}, {"a": "Commit"}]
+        mods = [{"a": "DeliverTx", "msgs": [{"t": "STopUp", "sender": s, "receiver": r, "dep": 7, "denom": "nund"}]} for r, s in STREAM_PAIRS] + \
+               [{"a": "DeliverTx", "msgs": [{"t": "SRate", "sender": s, "receiver": r, "rate": 2}]} for r, s in STREAM_PAIRS]
+        tail += [{"a": "BeginBlock", "dt": 1500}] + mods + [{"a": "EndBlock"}, {"a": "Commit"}]
+        tail += [{"a": "BeginBlock", "dt": 2000}] + claims + cancels + [{"a": "EndBlock"}, {"a": "Commit"}]
+    elif module.startswith("MC_Grp"):
+        def gx(member, *msgs):
+            return {"a": "DeliverTx", "msgs": [{"t": "GExec", "member": member, "msgs": list(msgs)}]}
+        def wrec(h):
+            return {"t": "WRec", "owner": "grp", "id": 1, "h": h, "bh": "b", "ph": "", "h1": "", "h2": "", "h3": ""}
+        claims = [{"a": "DeliverTx", "msgs": [{"t": "SClaim", "sender": "grp", "receiver": "A3"}]},
+                  gx("A2", {"t": "SClaim", "sender": "A1", "receiver": "grp"})]
+        tail += [{"a": "BeginBlock", "dt": 3000}] + claims + [gx("A1", wrec(50)), gx("A1", {"t": "BRec", "owner": "grp", "id": 1, "hash": "y", "subt": 9}),
+                 gx("A2", {"t": "BBuy", "owner": "grp", "id": 1, "n": 1}), gx("A2", {"t": "WBuy", "owner": "grp", "id": 1, "n": 1}),
+                 {"a": "DeliverTx", "msgs": [{"t": "Decide", "signer": "A1", "id": 1, "d": "accept"}]}, {"a": "EndBlock"}, {"a": "Commit"}]
+        tail += [{"a": "BeginBlock", "dt": 17500}] + claims + [gx("A2", wrec(51)), gx("A1", {"t": "Raise", "pur": "grp", "amt": 7, "denom": "nund"}),
+                 {"a": "EndBlock"}, {"a": "Commit"}]
+        tail += [{"a": "BeginBlock", "dt": 2000}, gx("A1", {"t": "SCancel", "sender": "grp", "receiver": "A3"}),
+                 {"a": "DeliverTx", "msgs": [{"t": "SCancel", "sender": "A1", "receiver": "grp"}]}, {"a": "EndBlock"}, {"a": "Commit"}] + EMPTY_BLOCK
     elif module.startswith("MC_Reg"):
         recs = [{"a": "DeliverTx", "fee": {"nund": 1}, "msgs": [{"t": "BRec", "owner": "A1", "id": 1, "hash": "y", "subt": 9}]}]
         regs = [{"a": "DeliverTx", "fee": {"nund": 4}, "msgs": [{"t": "BReg", "owner": "A2", "moniker": "m2", "name": "n2"}]},
                 {"a": "DeliverTx", "fee": {"nund": 4}, "msgs": [{"t": "WReg", "owner": "A2", "moniker": "m2", "name": "n2", "genesis": "g", "type": "t"}]}]
         tail += [{"a": "BeginBlock", "dt": 1000}] + recs + [{"a": "EndBlock"}, {"a": "Commit"}]
         tail += [{"a": "BeginBlock", "dt": 1000}] + regs + recs + [{"a": "EndBlock"}, {"a": "Commit"}]
+        # one more slot for the first registration of each module (what an import must leave purchasable)
+        buys = [{"a": "DeliverTx", "fee": {"nund": 1}, "msgs": [{"t": "BBuy", "owner": "A1", "id": 1, "n": 1}]},
+                {"a": "DeliverTx", "fee": {"nund": 1}, "msgs": [{"t": "WBuy", "owner": "A1", "id": 1, "n": 1}]}]
+        wrecs = [{"a": "DeliverTx", "fee": {"nund": 1}, "msgs": [{"t": "WRec", "owner": "A1", "id": 1, "h": h, "bh": "b", "ph": "", "h1": "", "h2": "", "h3": ""}]} for h in (7771, 7772)]
+        tail += [{"a": "BeginBlock", "dt": 1000}] + buys + recs + wrecs + [{"a": "EndBlock"}, {"a": "Commit"}]
     else:
         # a new order after whatever happened (its id must be the next unused one), accepted by a signer, then completed
         txs = [{"a": "DeliverTx", "msgs": [{"t": "Raise", "pur": "A3", "amt": 4, "denom": "nund"}]}]
         txs += [{"a": "DeliverTx", "msgs": [{"t": "Decide", "signer": "A1", "id": k, "d": "accept"}]} for k in (1, 2, 3)]
+        txs += [{"a": "DeliverTx", "msgs": [{"t": "Whitelist", "signer": "A1", "addr": "A4", "act": "add"}]},
+                {"a": "DeliverTx", "msgs": [{"t": "Raise", "pur": "A4", "amt": 2, "denom": "nund"}]}]
         tail += [{"a": "BeginBlock", "dt": 1000}] + txs + [{"a": "EndBlock"}, {"a": "Commit"}] + EMPTY_BLOCK * 3
+        if module.startswith("MC_Fee"):
+            # the purchaser pays a registry fee out of what was minted and locked for it
+            tail += [{"a": "BeginBlock", "dt": 1000}, {"a": "DeliverTx", "fee": {"nund": 12}, "msgs": [{"t": "BReg", "owner": "A3", "moniker": "mt", "name": "nt"}]},
+                     {"a": "EndBlock"}, {"a": "Commit"}]
     return beh + tail
 
 
